@@ -627,5 +627,11 @@ def fold(t, load=None):
         x = fold(t[2], load)
         return x if x[0] == "int" and "bool" in str(t[1]) and x[1] in (0, 1) else ("cast", t[1], x)
     if k == "call":
-        return ("call", t[1], tuple(fold(x, load) for x in t[2])) + tuple(t[3:])
+        r = ("call", t[1], tuple(fold(x, load) for x in t[2])) + tuple(t[3:])
+        if t[1] == "$loop_end" and all(x[0] == "int" for x in r[2]):
+            from .secretflow import eval_term          # the exit value of a counted loop with literal bounds
+            val = eval_term(r, {})
+            if val is not None:
+                return ("int", val)
+        return r
     return tuple(fold(x, load) if isinstance(x, tuple) else x for x in t)
